@@ -12,6 +12,15 @@ DIGESTS = {"t2": ("t2", 2), "sha256": ("sha256", 32), "sha512": ("sha512", 64)}
 
 
 def rec_checksum(digest, s):
+    if digest == "unit":
+        # the digest type `()` expects nothing in particular: any algorithm name, any digest length (an even number of hex digits, zero
+        # included). Whether the empty string is an algorithm name is left open (None).
+        if ":" not in s:
+            return False
+        pre, rest = s.split(":", 1)
+        if len(rest) % 2 or not all(c in HEX for c in rest):
+            return False
+        return True if pre else None
     name, nbytes = DIGESTS[digest]
     if ":" not in s:
         return False
@@ -38,6 +47,7 @@ def checksum_strings(tier):
     rest = ["".join(t) for k in range(n + 1) for t in itertools.product(alpha, repeat=k)]
     prefixes = ["t2:", "t2", "T2:", "t2::", ":", "", " t2:", "t2 :", "sha256:", "t:", "t22:", "t2:0"]
     out = {"t2": list(dict.fromkeys(p + r for p in prefixes for r in rest))}
+    out["unit"] = list(out["t2"])
     for d, (name, nb) in DIGESTS.items():
         if d == "t2":
             continue
@@ -78,7 +88,7 @@ def checksum_shard(arg):
                     sh.evaluations += 1
                     want = rec_checksum(digest, s)
                     case = {"kind": "checksum", "digest": digest, "input": s}
-                    if r["ok"] != want:
+                    if want is not None and r["ok"] != want:
                         sh.violation("checksum:%s:%s" % (digest, "accepts-invalid" if r["ok"] else "rejects-valid"),
                                      "Checksum<%s> %s %r" % (digest, "accepts" if r["ok"] else "rejects", s), case)
                         continue
@@ -162,6 +172,17 @@ def roundtrip_shard(arg):
                 arts.append({"version": r.choice(versions), "os": r.choice(["linux", "darwin"]), "arch": r.choice(["amd64", "arm64"]),
                              "url": r.choice(urls), "checksum": "sha256:" + "".join(r.choice("0123456789abcdef") for _ in range(64)),
                              "metadata": None if r.random() < 0.0 else {"tag": r.choice(tags), "n": r.choice([0, -1, 2 ** 62])}})
+            if arts and r.random() < 0.5:
+                # the same download listed again - right after the original or elsewhere - under another version, with other metadata, or
+                # exactly as it is: every artifact of the document is an artifact of the inventory
+                k = r.randrange(len(arts))
+                twin = dict(arts[k], metadata=dict(arts[k]["metadata"]))
+                how = r.choice(["version", "metadata", "exact", "version"])
+                if how == "version":
+                    twin["version"] = r.choice([v for v in versions if v != twin["version"]])
+                elif how == "metadata":
+                    twin["metadata"]["n"] = twin["metadata"]["n"] + 1 if twin["metadata"]["n"] < 2 ** 62 else 5
+                arts.insert(r.choice([k + 1, k + 1, k, r.randrange(len(arts) + 1)]), twin)
             queries = [{"os": o, "arch": a, "req": q} for o in ("linux", "darwin") for a in ("amd64", "arm64") for q in r.sample(reqs, 3)]
             rep = mon.call({"op": "roundtrip", "artifacts": arts, "queries": queries})
             sh.evaluations += 1
